@@ -36,6 +36,10 @@ pub struct Pay {
     /// an address that is no data address)
     #[serde(default)]
     pub zero_content: bool,
+    /// the upload carries, unchanged, the proof of payment of the last fully valid paid upload of this run that was
+    /// for ANOTHER address (ignored when there is none): paid for, verified and credited once - for other data
+    #[serde(default)]
+    pub reuse: bool,
 }
 
 #[derive(Serialize, Deserialize, Clone, Debug, PartialEq)]
@@ -114,11 +118,12 @@ fn good_pay(rng: &mut Rng) -> Pay {
         bogus_payee: None,
         slow: rng.chance(1, 6),
         zero_content: false,
+        reuse: false,
     }
 }
 
 fn break_one(rng: &mut Rng, p: &mut Pay) {
-    match rng.below(10) {
+    match rng.below(11) {
         9 => p.zero_content = true,
         8 => p.bogus_payee = Some(rng.below(p.n as u64) as u8),
         0 => {
@@ -132,7 +137,8 @@ fn break_one(rng: &mut Rng, p: &mut Pay) {
         4 => p.age = Some((rng.below(p.n as u64) as u8, 2)),
         5 => p.chain[rng.usize_below(3)] = 1,
         6 => p.rpc_error = true,
-        _ => p.other_addr = true,
+        7 => p.other_addr = true,
+        _ => p.reuse = true,
     }
 }
 
@@ -353,6 +359,28 @@ impl Sim for NodeSim {
                 }
             }
         }
+        // big-register runs concentrate on register 0: replicated copies with the owner's ops and differing shares
+        let big_registers = ctx.property == "C07" && ctx.mode != "concurrent" && rng.chance(1, 40);
+        let mut steps = steps;
+        if big_registers {
+            for st in steps.iter_mut() {
+                if let Step::Deliver { d } = st {
+                    if rng.chance(4, 5) {
+                        d.kind = 3;
+                        d.who = 0;
+                        d.pay = None;
+                        d.entry = 2;
+                        d.key_mode = 0;
+                        d.mangle = 0;
+                        for it in d.items.iter_mut() {
+                            if rng.chance(5, 6) {
+                                it.1 = 0;
+                            }
+                        }
+                    }
+                }
+            }
+        }
         Plan {
             property: ctx.property.clone(),
             mode: ctx.mode.clone(),
@@ -362,7 +390,7 @@ impl Sim for NodeSim {
             collide,
             open_registers: rng.chance(1, 5),
             big_pads: ctx.property == "C07" && rng.chance(1, 25),
-            big_registers: ctx.property == "C07" && ctx.mode != "concurrent" && rng.chance(1, 40),
+            big_registers,
             n_peers: match rng.below(4) { 0 => rng.urange(7, 18), 1 => rng.urange(19, 40), _ => 24 },
             steps,
         }
